@@ -276,3 +276,14 @@ fn leaf_kind_2() {
     kani::assume(x != b'^');
     kinds_agree(&[x, y]);
 }
+
+#[kani::proof]
+#[kani::unwind(16)]
+#[kani::stub(alloc::fmt::format, stub_format)]
+fn leaf_kind_3() {
+    let x = ascii(kani::any());
+    let y = ascii(kani::any());
+    let z = ascii(kani::any());
+    kani::assume(x != b'^');
+    kinds_agree(&[x, y, z]);
+}
